@@ -556,8 +556,10 @@ def sync_aware_insertion(state: VRPState, rng: Random) -> VRPState:
             state.unassigned.remove(cid)
             state.sync_assignments[cid] = {v for v, _ in best_insertions}
 
+    unplaced_multi = state.unassigned - set(single)
     state.unassigned = set(single)
     state = regret_insertion(state, rng)
+    state.unassigned |= unplaced_multi
 
     state.update_arrival_times()
     return state
